@@ -12,7 +12,7 @@ import (
 
 func init() {
 	register(&Property{
-		ID: "C19",
+		ID:          "C19",
 		Explanation: "utils.NewExtractor is read as a decision table (paths to each return, conditions canonicalised to eq(<const>) / prefix(<const>) / empty(suffix)): 'client.ip', 'request.host' and 'request.header.<X>' each return a nil error and a specific extractor, every other path returns a non-nil error. The extractor bound to client.ip must return, as token, exactly the host result of an allow-listed host:port parser (net.SplitHostPort, netip.ParseAddrPort) applied to req.RemoteAddr, and an error on the parser's error edge; a first-colon splitter over RemoteAddr is a definite violation, any other derivation is UNDECIDED (fails, naming the idiom). request.host must return req.Host itself, request.header.X must return req.Header.Get(X) with X the suffix of the variable after the constant prefix. Every built-in extractor returns the constant amount 1 on its success paths. Value provenance is followed on SSA def-use chains; nothing is executed.",
 		NotDecided: []string{
 			"behaviour of net.SplitHostPort itself on malformed addresses (stdlib, trusted): only that its error edge returns an error is checked",
